@@ -77,27 +77,23 @@ HeadersEnd(s) ==
   IF E = {} THEN 0 ELSE MinOf(E)
 HasObsFold(s, he) == \E ix \in 1..he : s[ix] \in WSP /\ LineStart(s, ix)
 
-\* RFC 9112 section 2.2: lines in front of the first field that start with whitespace are consumed without processing
-RECURSIVE CleanPrefix(_)
+\* RFC 9112 section 2.2: lines in front of the first field that start with whitespace are consumed without processing.
+\* (Written without recursion over the lines: header blocks may have hundreds of lines.)  The block starts at the first
+\* line whose first byte is not whitespace; if there is none (only whitespace-preceded lines and the final CR LF), CR LF is left.
 CleanPrefix(blk) ==
-  IF Len(blk) >= 1 /\ blk[1] \in RELAXEDDELIM
-  THEN LET rest == Drop(blk, 1)
-           p == IndexOf(rest, LF) IN
-       IF p = 0 THEN CRLF ELSE IF p = Len(rest) THEN CRLF ELSE CleanPrefix(Drop(rest, p))
-  ELSE blk
-\* RFC 9112 section 5.2: each obs-fold ( *CR LF 1*( SP / HTAB ) ) is replaced by one SP
-RECURSIVE Unfold(_)
+  LET Good == {q \in 1..Len(blk) : LineStart(blk, q) /\ blk[q] \notin RELAXEDDELIM} IN
+  IF Good = {} THEN CRLF ELSE Drop(blk, MinOf(Good) - 1)
+\* RFC 9112 section 5.2: each obs-fold ( *CR LF 1*( SP / HTAB ) ) is replaced by one SP.
+\* Position-wise: an LF followed by SP/HTAB is a fold; the CR run in front of it and the SP/HTAB run behind it are dropped.
 Unfold(s) ==
-  IF s = <<>> THEN <<>> ELSE
-  LET blob == Span(s, (0..255) \ {CR, LF})
-      s1 == Drop(s, blob)
-      cr == Span(s1, {CR})
-      s2 == Drop(s1, cr)
-      lf == IF Len(s2) >= 1 /\ s2[1] = LF THEN 1 ELSE 0
-      s3 == Drop(s2, lf)
-      ws == Span(s3, WSP) IN
-  IF lf = 1 /\ ws >= 1 THEN Take(s, blob) \o <<SP>> \o Unfold(Drop(s3, ws))
-  ELSE Take(s, blob + cr + lf) \o Unfold(s3)
+  LET n == Len(s)
+      FoldLF(q) == q >= 1 /\ q < n /\ s[q] = LF /\ s[q + 1] \in WSP
+      NextNonCR(q) == q + Span(SubSeq(s, q, n), {CR})                          \* first position >= q that is not CR (n+1 = none)
+      PrevNonWSP(q) == SelectLastInSeq(SubSeq(s, 1, q), LAMBDA b : b \notin WSP)  \* last position <= q that is not SP/HTAB (0 = none)
+      Dropped(q) == \/ s[q] = CR /\ FoldLF(NextNonCR(q))
+                    \/ s[q] \in WSP /\ FoldLF(PrevNonWSP(q))
+      Kept == SelectSeq([q \in 1..n |-> q], LAMBDA q : ~Dropped(q)) IN
+  [k \in 1..Len(Kept) |-> IF FoldLF(Kept[k]) THEN SP ELSE s[Kept[k]]]
 MimeBlock(raw, fold) == LET cl == CleanPrefix(raw) IN IF fold THEN Unfold(cl) ELSE cl
 
 \* ---- the whole head ----
